@@ -1456,7 +1456,7 @@ def run(ctx, deep=False):
     # ---- jobs
     jobs = panel_jobs()
     n_panel = len(jobs)
-    n_rand = 350 if not thorough else 2500
+    n_rand = 260 if not thorough else 2500
     for _ in range(n_rand):
         lang, tree = gtree(rng)
         for st in histories_of(rng, lang, tree, budget=8 if not thorough else 24):
